@@ -273,8 +273,8 @@ def fan_out(chk):
 
     def atom_contract(kind):
         def c(eng_, f, args, kwargs):
-            args = [x for k_, x in enumerate(args) if not (k_ == 0 and isinstance(x, I.ClassRef))]      # class methods: drop cls
-            rec["atom"].append((kind, list(args), dict(kwargs)))
+            # positional and keyword forms of a call are the same call: bind against the callee's real signature
+            rec["atom"].append((kind, [], framework.bound_arguments(eng_, f, args, kwargs)))
             o = I.Obj(eng_.get_class("grid.atomgrid", "AtomGrid"))
             o.fields["_made"] = len(rec["atom"]) - 1
             return o
@@ -332,7 +332,7 @@ def fan_out(chk):
             if struct:
                 for a, (kind, args, kw) in enumerate(atoms):
                     if which == "from_size":
-                        okk = kind == "init" and args and args[0] is rg and kw.get("degrees", 0) is None and isinstance(kw.get("sizes"), list) and len(kw["sizes"]) == 1
+                        okk = kind == "init" and kw.get("rgrid") is rg and kw.get("degrees", 0) is None and isinstance(kw.get("sizes"), list) and len(kw["sizes"]) == 1
                         struct = struct and bool(okk)
                         if okk:
                             goals.append(T.zi(kw["sizes"][0]) == sizev)
@@ -342,10 +342,10 @@ def fan_out(chk):
                         if okk:
                             goals.append(T.zi(M.unwrap(kw["atnum"])) == ZA[a])
                     else:
-                        okk = kind == "from_pruned" and args and args[0] is rg and kw.get("r_sectors") == [f"rs{a}"] and kw.get("d_sectors") == [f"ds{a}"] and kw.get("s_sectors", 0) is None
+                        okk = kind == "from_pruned" and kw.get("rgrid") is rg and kw.get("r_sectors") == [f"rs{a}"] and kw.get("d_sectors") == [f"ds{a}"] and kw.get("s_sectors", 0) is None
                         struct = struct and bool(okk)
                         if okk:
-                            goals.append(T.zr(args[1]) == z3.Real(f"rad{a}"))
+                            goals.append(T.zr(kw["radius"]) == z3.Real(f"rad{a}"))
                     okc, eqs = coord_ok(kw.get("center"), a)
                     struct = struct and okc and T.is_sym(kw.get("rotate")) and kw["rotate"].eq(rotv)
                     goals += eqs
@@ -367,8 +367,8 @@ def fan_out_dispatch(chk):
 
     def atom_contract(kind):
         def c(eng_, f, args, kwargs):
-            args = [x for k_, x in enumerate(args) if not (k_ == 0 and isinstance(x, I.ClassRef))]
-            rec["atom"].append((kind, list(args), dict(kwargs)))
+            # positional and keyword forms of a call are the same call: bind against the callee's real signature
+            rec["atom"].append((kind, [], framework.bound_arguments(eng_, f, args, kwargs)))
             o = I.Obj(eng_.get_class("grid.atomgrid", "AtomGrid"))
             o.fields["_made"] = len(rec["atom"]) - 1
             return o
@@ -440,7 +440,7 @@ def fan_out_dispatch(chk):
             goals = []
             if ok:
                 for a, (kind, args, kw) in enumerate(atoms):
-                    got = kw.get("rgrid") if kind == "from_preset" else (args[0] if args else None)
+                    got = kw.get("rgrid")
                     if rkind == "none":
                         okr = isinstance(got, I.Obj) and "_default_for" in got.fields
                         if okr:
